@@ -73,6 +73,7 @@ type Run struct {
 	HarnessErrors []string          `json:"harness_errors"`
 	Extra         map[string]any    `json:"extra"`
 	violSeen      map[string]int
+	violTotal     int
 	sampleSeen    map[string]int
 }
 
@@ -129,6 +130,7 @@ func (r *Run) Sample(kind string, v any) {
 // Violate records a violation; at most 3 replays are kept per fingerprint.
 func (r *Run) Violate(fp, detail string, rp Replay) {
 	r.violSeen[fp]++
+	r.violTotal++
 	if r.violSeen[fp] > 3 {
 		return
 	}
@@ -222,6 +224,10 @@ func (b *BFS) Explore(r *Run) int {
 		for _, n := range frontier {
 			if r.Expired() {
 				r.Truncate(fmt.Sprintf("%s: deadline during BFS depth %d (complete to depth %d)", r.Job, depth+1, completedDepth))
+				goto done
+			}
+			if r.violTotal > 200 {
+				r.Truncate(fmt.Sprintf("%s: stopped after %d violations (depth %d)", r.Job, r.violTotal, depth+1))
 				goto done
 			}
 			w.Load(n.Dump)
